@@ -47,6 +47,7 @@ fn main() {
         let line = std::panic::catch_unwind(std::panic::AssertUnwindSafe(|| match kind {
             "C16" => c16::case(&mut rng),
             "C17" => c17::case(&mut rng),
+            "C17R" => c17::case_remove_axes(&mut rng),
             "C19" => c19::case(&mut rng),
             "C18A" => c18::arch_case(&mut rng),
             "C18N" => c18::npz_case(&mut rng, case),
